@@ -74,6 +74,12 @@ class ModGen:
         if cands and not port and self.rng.random() < 0.7:
             return self.rng.choice(cands)["n"]
         n = self.fresh("bp" if port else "b")
+        if not port and self.rng.random() < 0.25:
+            # two instances made in one go (`b1, b2 = 2 * B()`): the second is there for a later connection to pick up
+            n2 = self.fresh("b")
+            self.bundles.append({"n": n, "of": bdef, "port": False, "mult": n})
+            self.bundles.append({"n": n2, "of": bdef, "port": False, "mult": n})
+            return n
         self.bundles.append({"n": n, "of": bdef, "port": port})
         return n
 
